@@ -39,9 +39,10 @@ def grids(ctx, scale):
                     # next to the median, on both sides, at every scale down to one ulp: where a series, a shortcut or a table replaces the formula
                     | {0.5 + sg * 2.0 ** -k for k in range(2, 54) for sg in (-1, 1)} | {0.5 + sg * 10.0 ** -k for k in range(1, 17) for sg in (-1, 1)}
                     | {0.5 + sg * m * 10.0 ** -k for k in range(2, 8) for m in (2, 3, 5, 9, 9.9) for sg in (-1, 1)}
-                    | {0.5 + rng.choice((-1, 1)) * 10.0 ** -(rng.random() * 16) for _ in range(40 * scale)}
+                    | {0.5 + rng.choice((-1, 1)) * 10.0 ** -(0.31 + rng.random() * 15.7) for _ in range(40 * scale)}
                     # and next to every other point where a piecewise approximation could switch: 0.1, 0.25, 0.025, 0.05, 0.01, 0.001 ...
                     | {c * (1 + sg * 2.0 ** -k) for c in (0.25, 0.1, 0.05, 0.025, 0.02425, 0.01, 0.005, 0.001, 0.75, 0.9, 0.975) for k in (10, 20, 30, 40, 52) for sg in (-1, 1)})
+    alphas = [a for a in alphas if 0.0 < a < 1.0]          # the documented domain
     return ns, ps, cs, alphas
 
 
